@@ -13,7 +13,9 @@ Prune.body ↦ `pBody`, Commit.loop ↦ `cLoop` …); one model step runs from o
 `defer:obj.RUnlock` precedes `defer:prune`, hence checkAndPrune runs BEFORE RUnlock
 (`Variant.pruneAfterRUnlock = false`); `tx.Lock` precedes `mgr.Lock` for writers
 (`Variant.txFirst = true`, the fix of the deadlock); `use.own` = the callback gets the object in
-writtenCaches (`Variant.useOwn = true`, the fix of the stale-entry defect).
+writtenCaches (`Variant.useOwn = true`, the fix of the stale-entry defect); `@With.nDropOld
+scrapped.set obj.Unlock` before `written.put` of the new-cache branch = a replaced entry is scrapped
+and unlocked (`Variant.dropOld = true`, the fix of the forgotten lock).
 -/
 namespace Sema.C11.Skeleton
 
@@ -46,7 +48,8 @@ def expectedWith : List String := [
   "if(!readOnly){", "@With.nFailTxUnlock", "tx.Unlock", "}", "return", "}", "newElem",
   "@With.nStore", "maxSize", "if(t.manager.maxSize!=0){", "map.put", "defer:prune", "}",
   "if(readOnly){", "@With.nRLock", "obj.RLock", "defer:obj.RUnlock", "defer:@With.dRUnlock",
-  "}else{", "@With.nObjLock", "obj.Lock", "@With.nRegister", "written.put", "@With.nTxUnlock",
+  "}else{", "@With.nObjLock", "obj.Lock", "written.get", "if(ok){", "@With.nDropOld",
+  "scrapped.set", "obj.Unlock", "}", "@With.nRegister", "written.put", "@With.nTxUnlock",
   "tx.Unlock", "}", "@With.nMgrUnlock", "mgr.Unlock", "@With.callF", "callF", "if(err!=nil){",
   "@With.fScrap", "failed.store", "scrapped.set", "@With.fMgrLock", "mgr.Lock", "@With.fDelete",
   "map.delete", "@With.fMgrUnlock", "mgr.Unlock", "return", "}", "return"]
